@@ -231,6 +231,15 @@ def verify (sm : Int → Pt Nat → Pt Nat) (H : Option HashFn) (Q : Pt Nat) (si
     | .error e => .error e
     | .ok e => .ok (P.verifyCore sm Q e r s)
 
+/-- `PublicKey.Verify` with the KEY VALIDATION in front (the public key is an exported field, so a caller can hand in any pair of
+    coordinates): the point at infinity is not a public key, and neither is a point off the curve — the group formulas never use the
+    coefficient `b`, an off-curve point would be processed on another curve `y² = x³ + ax + b'` (possibly one with small subgroups).
+    Only then the signature is parsed and the equation decided. -/
+def verifyPK (sm : Int → Pt Nat → Pt Nat) (H : Option HashFn) (Q : Pt Nat) (sig msg : Bytes) : Except Err Bool :=
+  if Q.isNone then .error .pkInfinity
+  else if !P.E.onCurve Q then .error .notOnCurve
+  else P.verify sm H Q sig msg
+
 /-- `PrivateKey.Sign(message, hFunc)` with the nonce `k` as a parameter (the Go code draws it from an AES-CTR stream keyed by
     SHA-512(scalar ‖ entropy ‖ message)): `r = x([k]G) mod n`, `s = k⁻¹(e + r·d) mod n`, output `r ‖ s`, each component in
     exactly `frBytes` big-endian bytes (leading zero bytes included). `r = 0` or `s = 0` makes Go draw another nonce. -/
